@@ -117,6 +117,79 @@ def modelFa (f : TextFormat) (e : Endian) (data : Bytes) (labels : List (Nat × 
   | .err er => "err " ++ er.name
   | .panic => "panic"
 
+/-! ### C06 on archives that went through a history (`hs`) -/
+
+inductive HOp
+  | title (t : Str) | del (k : Str) | set (k m : Str)
+
+def parseOps (s : String) : Option (List HOp) :=
+  (parseList s).mapM (fun p =>
+    match p with
+    | ["t", a] => do pure (.title (← bytesOfHex a))
+    | ["d", a] => do pure (.del (← bytesOfHex a))
+    | ["s", a, b] => do pure (.set (← bytesOfHex a) (← bytesOfHex b))
+    | _ => none)
+
+def applyOp (t : TextArchive) : HOp → TextArchive
+  | .title s => t.setTitle s
+  | .del k => t.deleteMessage k
+  | .set k m => t.setMessage k m
+
+def modelHs (f : TextFormat) (e : Endian) (title : Str) (entries : List (Str × Str))
+    (parsedFirst : Bool) (ops : List HOp) : String :=
+  let t0 := entries.foldl (fun t p => t.setMessage p.1 p.2) ((TextArchive.new f e).setTitle title)
+  let start : Res TextArchive :=
+    if parsedFirst then
+      match t0.serialize c with
+      | .ok b0 => TextArchive.fromBytes c b0 f e
+      | .err er => .err er
+      | .panic => .panic
+    else .ok t0
+  match start with
+  | .err er => "err0 " ++ er.name
+  | .panic => "panic"
+  | .ok t1 =>
+    let t := ops.foldl applyOp t1
+    let head := "ok ctitle=" ++ hexOfBytes t.title ++ " centries=" ++ pairsStr t.entries
+    match t.serialize c with
+    | .ok bytes =>
+      match TextArchive.fromBytes c bytes f e with
+      | .ok p => head ++ " bytes=" ++ hexOfBytes bytes ++ " parsed title=" ++ hexOfBytes p.title
+          ++ " entries=" ++ pairsStr p.entries
+      | .err er => head ++ " bytes=" ++ hexOfBytes bytes ++ " parse-err " ++ er.name
+      | .panic => "panic"
+    | .err er => head ++ " ser-err " ++ er.name
+    | .panic => "panic"
+
+/-- The round-trip and layout clauses of C06 on the archive *as it reported itself* (`get_title`,
+`get_entries`) just before `serialize`, whatever history produced it: the file must hold exactly
+that title (UTF-16 format), those keys in that order and those messages — judged on the raw bytes
+by the reference reader and on the re-parsed archive. -/
+def oracleHs (f : TextFormat) (e : Endian) (impl : List String) : String :=
+  if impl.getD 1 "" == "panic" then "FAIL panic" else
+  if impl.getD 1 "" != "ok" then "ok skip (preparatory serialize / from_bytes failed)" else
+  let uni := f == .unicode
+  match (field impl "ctitle").bind bytesOfHex, (field impl "centries").bind parsePairs with
+  | some ctitle, some centries =>
+    let keys := centries.map (·.1)
+    let dom := keys.eraseDups.length == keys.length && keys.all inSjisDomain
+      && (!uni || inSjisDomain ctitle)
+      && centries.all (fun p => if uni then inUnicodeDomain p.2 else inSjisDomain p.2)
+    if !dom then "ok skip (outside the property's domain)" else
+    if impl.getD 4 "" == "ser-err" then "FAIL serialize failed on an in-domain archive" else
+    if impl.getD 5 "" != "parsed" then "FAIL re-parse failed on the archive's own image" else
+    match (field impl "bytes").bind bytesOfHex, (field impl "title").bind bytesOfHex,
+        (field impl "entries").bind parsePairs with
+    | some bytes, some ptitle, some pentries =>
+      if uni && ptitle != ctitle then "FAIL round trip after a history: title differs from get_title before serialize"
+      else if pentries.map (·.1) != keys then "FAIL round trip after a history: keys or key order differ from get_entries before serialize"
+      else if pentries != centries then "FAIL round trip after a history: a message differs"
+      else match Spec.TextImage.checkFile uni (e == .big) c.dec bytes ctitle centries with
+        | none => "ok"
+        | some why => "FAIL file after a history: " ++ why
+    | _, _, _ => "FAIL unreadable implementation line"
+  | _, _ => "FAIL unreadable implementation line"
+
 /-! ### C07 -/
 
 structure St where
@@ -233,6 +306,11 @@ def family : Family where
           else if field impl "dirty" == some "0" then "ok" else "FAIL parsed archive is dirty"
         (st, modelRtd impl, v)
       | _, _, _, _ => (st, "bad-case", "FAIL bad-case")
+    | [_, "hs", f, e, title, entries, src, ops] =>
+      match fmtOf f, endianOf e, bytesOfHex title, parsePairs entries, parseOps ops with
+      | some f, some e, some title, some entries, some ops =>
+        (st, modelHs f e title entries (src == "P") ops, oracleHs f e impl)
+      | _, _, _, _, _ => (st, "bad-case", "FAIL bad-case")
     | [_, "fa", f, e, data, labels] =>
       match fmtOf f, endianOf e, bytesOfHex data, parseLabels labels with
       | some f, some e, some data, some labels =>
